@@ -79,6 +79,10 @@ type interpreter struct {
 	undoFns  []func()
 	snapSide *sideState
 	initDone bool
+	race     *raceState
+	inAtomic   bool
+	inMapWrite bool
+	inSyncMap  bool
 }
 
 type undoRec struct {
@@ -88,6 +92,9 @@ type undoRec struct {
 
 // setCell is the single funnel for writes to existing heap cells.
 func (i *interpreter) setCell(addr *value, v value) {
+	if i.race != nil && i.race.on {
+		i.raceAccess(addr, true, i.inAtomic)
+	}
 	if i.logging {
 		i.undo = append(i.undo, undoRec{addr, *addr})
 	}
@@ -223,6 +230,14 @@ func mustDeref(t types.Type) types.Type {
 
 func visitInstr(fr *frame, instr ssa.Instruction) continuation {
 	i := fr.i
+	if i.race != nil && i.race.on {
+		if c := i.sch.cur; c != nil {
+			c.fr = fr
+			if p := instr.Pos(); p.IsValid() {
+				c.pos = p
+			}
+		}
+	}
 	switch instr := instr.(type) {
 	case *ssa.DebugRef:
 		// no-op
